@@ -84,3 +84,23 @@ Proof.
   split; [exact K1|exact K2].
 Qed.
 Print Assumptions C08_compiled_arithmetic.
+
+(* ------------------------------------------------------------------ *)
+(* END TO END, from the TEXT  E1 op E2  for + - * div mod (operands: number literal, string literal
+   or predicate-free path): Compile succeeds and the value is the IEEE operation on number() of the
+   operand values. *)
+From XP.Proofs Require Import HashInj RoundTripOps RoundTripPaths EndToEndValues.
+
+Theorem C08_end_to_end_arithmetic : forall D has_ns hc rm rn rr,
+  hash_ok (hc D) (all_nodes D) ->
+  forall re_ok ns b o l r,
+  is_operand_px l -> is_operand_px r -> arith_of (opname b) = Some o ->
+  xok (XBin b l r) -> (1 + osize l <= max_build_depth)%nat -> (1 + osize r <= max_build_depth)%nat ->
+  exists q,
+    compile re_ok (print_min (XBin b l r)) ns = Ok q /\
+    compile re_ok (print_sp (XBin b l r)) ns = Ok q /\
+    forall c, valid D c = true ->
+    exists m n, opval D has_ns l c m /\ opval D has_ns r c n /\
+      evaluate rm rn rr hc D has_ns q c = Val (VNum (arith_op o (as_number D m) (as_number D n))).
+Proof. exact C08_text_arithmetic. Qed.
+Print Assumptions C08_end_to_end_arithmetic.
